@@ -190,8 +190,24 @@ def st_pair_lens(draw, scheme, cfg):
         if not desc.lens_ok(cfg, lens1):
             lens1 = [1] * k
         contribs = [pi2lev_contrib(cfg, n) for n in lens1]
-        contribs = draw(st.permutations(contribs))
-        lens2 = [draw(st.sampled_from(pre[c])) for c in contribs]
+        # the second database has the same keyword count and the same total array length, but (when possible) a DIFFERENT split
+        # of that length over the keywords (e.g. one keyword with 64 blocks against two with 32)
+        total = sum(contribs)
+        achievable = sorted(pre)
+        other = None
+        if k >= 2 and total > 0:
+            for _ in range(12):
+                parts = [draw(st.sampled_from(achievable)) for _ in range(k - 1)]
+                last = total - sum(parts)
+                if last in pre:
+                    cand = parts + [last]
+                    if sorted(cand) != sorted(contribs):
+                        other = cand
+                        break
+        contribs2 = other if other is not None else list(draw(st.permutations(contribs)))
+        lens2 = [draw(st.sampled_from(pre[c])) for c in contribs2]
+        if not desc.lens_ok(cfg, lens2):
+            lens2 = [draw(st.sampled_from(pre[c])) for c in contribs]
         return lens1, lens2
     # CT14 / ANSS16: equal ceil(log2 N)
     t = draw(st.integers(0, 7))
